@@ -242,9 +242,21 @@ func runCheck(cfg checkCfg) int {
 	wg.Wait()
 	// an obligation nobody decided is retried once, alone, with a longer limit on all solvers, before it counts
 	retried := 0
+	// selftest runs (CEDAR_FAILFAST=1) only need to know that the change is reported: once some obligation has a
+	// counterexample the verdict is settled and the undecided rest is not retried at four times the budget
+	failFast := false
+	if os.Getenv("CEDAR_FAILFAST") != "" {
+		for _, r := range runs {
+			for _, res := range r.results {
+				if res.Status == "failed" && !res.Obl.Vac {
+					failFast = true
+				}
+			}
+		}
+	}
 	for _, r := range runs {
 		for i, res := range r.results {
-			if res.Status == "undecided" {
+			if res.Status == "undecided" && !failFast {
 				retried++
 				wg.Add(1)
 				go func(r *funcRun, i int) {
